@@ -77,7 +77,10 @@ def kernelData (sim : Sim) : Sim :=
         | .acc =>
           let n := getAvail sim o.fd
           setAvail (evs sim (List.replicate n (.kPost id true (okRes .acc)))) o.fd 0
-        | .zc => evs sim [.kPost id true (okRes .zc), .kPost id false (.ok 0)]
+        | .zc =>
+          -- slot 7 is a unix stream pair: the kernel answers the zero-copy send with EOPNOTSUPP (95) and still posts
+          -- the notification CQE
+          evs sim [.kPost id true (if o.fd = 7 then .err 95 else okRes .zc), .kPost id false (.ok 0)]
         | .blk => sim
       else sim
     | _, _ => sim) sim
@@ -191,7 +194,13 @@ def exec (sim : Sim) (w : List String) : Sim × String :=
       let sim := { sim with hk := sim.hk ++ [hk] }
       match hk, sim.st.drv with
       | .blk, _ => line (ev sim .pushBlocking) "pending"
-      | _, .iour => line (withRoom sim (.pushSq hk.kind fd hk.dir)) "pending"
+      | _, .iour =>
+        -- CQEs caused by the submit inside the overflow loop (cancellations, multishot, notifications) are posted
+        -- by task work a moment later; whether the drain of the same call sees them is a race, so the harness
+        -- polls to quiescence after a push that overflowed, and so does the model
+        let full := !(decide (sim.st.sqLen < sim.st.cap))
+        let sim := withRoom sim (.pushSq hk.kind fd hk.dir)
+        line (if full then settle sim else sim) "pending"
       | .zc, .poll => line (ev sim (.pushReady hk.kind fd hk.dir (okRes hk))) s!"ready:{showRes (okRes hk)}"
       | _, .poll =>
         if 0 < getAvail sim fd then
@@ -211,7 +220,10 @@ def exec (sim : Sim) (w : List String) : Sim × String :=
   | ["flush"] =>
     if !sim.st.alive then line sim "noproactor" else
     match sim.st.drv with
-    | .iour => line (iourFlush sim) "ok"
+    | .iour =>
+      let full := sim.st.needNotifier && !(decide (sim.st.sqLen < sim.st.cap))
+      let sim := iourFlush sim
+      line (if full then settle sim else sim) "ok"
     | .poll => line sim "ok"
   | ["pop", id] =>
     withKey sim id true fun id o =>
